@@ -18,6 +18,7 @@
     (17 sched)       synchronous read while the value's task holds the write lock (in the Drop of the old value)   ((st v) final hang)
     (18 kind sched)  await vs a user's write guard on the async derived value, HEAD   ((st v polls) writer_done hang)
     (28 kind sched)  the same before the fix
+    (31 kinds sched) = (1 ..) with a fresh future and a fresh waker for every poll
     (23 progs sched) = (3 ..) driven through arena handles (RwSignal, Memo)
     (7 sched)        signal read vs write holding the lock      ((reader_status value) writer_status final_s)
     status: 0 = waiting at a yield point / parked, 1 = finished, 2 = blocked on a lock, 3 = panicked *)
@@ -109,6 +110,7 @@ Definition run_C19 (c : sexp) : sexp :=
   match as_Z (nth_s 0 c) with
   | 0%Z => obs_await (arun Prefix (ainit (as_bools (nth_s 1 c))) (as_nats (nth_s 2 c)))
   | 1%Z => obs_await (arun Fixed (ainit (as_bools (nth_s 1 c))) (as_nats (nth_s 2 c)))
+  | 31%Z => obs_await (arun Fixed (ainit (as_bools (nth_s 1 c))) (as_nats (nth_s 2 c)))
   | 2%Z => obs_chan (crun (cinit (as_bool (nth_s 1 c)) (map as_Zs (as_list (nth_s 2 c))))
                           (as_nats (nth_s 3 c)))
   | 3%Z => obs_sig (mrun (minit (map (fun p => map as_op (as_list p)) (as_list (nth_s 1 c))))
